@@ -671,12 +671,24 @@ def _run(${ctx}text, pos, start, fullparse):
 
         if result[0] != $CALL:
             stack.pop()
-            memo[key] = result
-        elif result in memo:
+            if key is not None:
+                memo[key] = result
+            continue
+
+        # The arguments of a parameterised rule are part of the key, and they
+        # need not be hashable: such a call is simply not memoised.
+        try:
+            is_known = result in memo
+        except TypeError:
+            is_known, key = False, None
+        else:
+            key = result
+
+        if is_known:
             result = memo[result]
         else:
             gtor = result[1](${ctx}text, result[2])
-            stack.append((result, gtor))
+            stack.append((key, gtor))
             result = None
 
     if result[0]:
